@@ -143,10 +143,18 @@ class RoundTrip(UperBase):
             cnt = rng.range(1, 5)
             pick = [vals[rng.below(len(vals))] for _ in range(cnt)]
             reqs.append("uper many " + " ".join(f"{n} {ty} {val}" for n, ty, val, _ in pick))
+        reqs += self.longs(rng, tier)
+        return reqs
+
+    def longs(self, rng, tier, only=None):
+        out = []
         # long values: >= 16K items, every fragment class, on list/string/octet/bit types
         longs = ["zoo_leaf::ListIntAny", "zoo_leaf::ListBoolBig", "zoo_leaf::ListBoolMid", "zoo_leaf::ListBoolLb",
                  "zoo_leaf::Ia5Any", "zoo_leaf::Ia5Big", "zoo_leaf::NumericAny", "zoo_leaf::OctAny", "zoo_leaf::OctBig",
-                 "zoo_leaf::OctMid", "zoo_leaf::BitsAny", "zoo_leaf::BitsBig", "zoo_leaf::Utf8Any", "zoo_leaf::OctLb"]
+                 "zoo_leaf::OctMid", "zoo_leaf::BitsAny", "zoo_leaf::BitsBig", "zoo_leaf::Utf8Any", "zoo_leaf::OctLb",
+                 # extensible bounded sizes: a long value lies outside the root (extension form + fragments)
+                 "zoo_leaf::BitsExt", "zoo_leaf::BitsFixExt", "zoo_leaf::OctExt", "zoo_leaf::OctFixExt", "zoo_leaf::Ia5Ext",
+                 "zoo_leaf::Utf8Ext", "zoo_leaf::ListIntExt"]
         # the Lean mirror reads by absolute position on a List (quadratic in the value length): the
         # quick tier keeps list/string values below 64K items; octet/bit strings (one L1 call) go further
         small = [16383, 16384, 16385, 20000]
@@ -155,6 +163,8 @@ class RoundTrip(UperBase):
         blob_sizes = small + [32768, 49152, 65535, 65536, 65537, 81920] if tier == "quick" else \
             small + [32768, 49152, 65535, 65536, 65537, 70000, 81920, 98304, 131072, 131073, 200000]
         for n in longs:
+            if only is not None and n not in only:
+                continue
             if n not in self.desc:
                 continue
             node0 = ty_nodes(self.desc[n])[1]
@@ -162,12 +172,13 @@ class RoundTrip(UperBase):
             for sz in (blob_sizes if is_blob else sizes):
                 node = node0
                 hi = opt(node[3]) if node[0] == "str" else opt(node[2])
-                if hi is not None and sz > hi:
+                ext = (node[4] if node[0] == "str" else node[3]) == "1"
+                if hi is not None and sz > hi and not ext:
                     continue
                 val = self.long_value(node, sz, rng)
                 if val:
-                    reqs.append(f"uper rt {n} {self.desc[n]} (seq {val})")
-        return reqs
+                    out.append(f"uper rt {n} {self.desc[n]} (seq {val})")
+        return out
 
     @staticmethod
     def long_value(node, n, rng):
@@ -500,8 +511,11 @@ class ExtForms(RoundTrip):
         seeds = [(n, rng.next() % 10**9) for n in names for _ in range(k)]
         vals = uperlib.gen_values(seeds, "valid", 6, self.h)
         reqs = [f"uper rt {n} {ty} {val}" for n, ty, val, _ in vals]
+        # long values outside the root: extension form AND fragments (octet / bit strings round-trip; lists and
+        # restricted strings from 16K items on are the known finding F-frag of C01, not asked here)
+        reqs += self.longs(rng, tier, only={"zoo_leaf::BitsExt", "zoo_leaf::BitsFixExt", "zoo_leaf::OctExt", "zoo_leaf::OctFixExt",
+                                           "zoo_leaf::Utf8Ext"})
         # every value of the extensible enumerations (each addition index once)
-        self._valid = True
         for n in names:
             node = ty_nodes(self.desc[n])[0]
             if node[0] == "enum":
